@@ -16,7 +16,11 @@ EXPLANATION = (
     "the latch on every non-panicking path, after printing exactly one bestmove; (LOCK) the lock-order graph over the "
     "persistent-state mutex and the latch mutex across both threads is acyclic and no guard is held across a wait; "
     "(NOBLOCK) the isready / quit / position / debug / ponderhit arms reach no blocking primitive and setoption only "
-    "try_lock. Not decided: that each go is answered when its limit is reached (search termination)."
+    "try_lock; (STOPFLAG) the stop flag is only raised, raised whenever a handle is installed, and the poll answers false "
+    "only after reading it as clear (or on the node-count throttle); (LIMIT) only the payload-free time control is "
+    "searched without a time limit - a limit value is never used as the no-limit marker unless no finite limit can "
+    "compute to it; (PANIC) no undischarged panic site in the cone of the search thread (a panic there leaves the latch "
+    "unset). Not decided: that the search reaches its next poll in bounded time (search termination)."
 )
 
 UCI = "engine::uci::Uci"
